@@ -70,6 +70,11 @@ def iop(op, i):
         return '(IProposeOp %s %s)' % (c, H(op['a']))
     if k == 'acceptOp':
         return '(IAcceptOp %s %s)' % (c, H(op['a']))
+    if k == 'upgrade':
+        # an upgrade transaction carrying constructor-style arguments: the service's `upgrade` takes none, the framework
+        # refuses the call.  The model has no such endpoint; it is represented by a call the model refuses as well
+        # (setTrustedAddress with an empty chain name): a refused transaction with no effect.
+        return '(ISetTrusted %s [] [])' % c
     raise ValueError(k)
 
 def expect(res, i):
